@@ -321,6 +321,79 @@ class Rewriter(Client):
         super().__init__(*a)
         self.queue: list = []
 
+    def ancilla_sandwich(self):
+        """A parent with a private ancilla in the middle of its modes, the same
+        transposition before and after a grouped block that spans the ancilla
+        and ends exactly on the swapped mode, then a compression."""
+        r, w = self.rng, self.w
+        if len(self.own_circuits()) + 3 > self.cfg["max_circuits"] + 3:
+            return None
+        nu = r.randint(4, 5)
+        par, her, blk = w.new_id("c"), w.new_id("c"), w.new_id("c")
+        hm = r.randint(1, 2)                 # herald inside the 3-mode sub
+        at = r.randint(0, nu - 2)            # where the heralded sub goes
+        upos = at + hm                       # user wire the ancilla sits before
+        wdt = r.randint(2, 3)
+        lo_a, hi_a = max(upos, wdt - 1), min(upos + wdt - 2, nu - 2)
+        if lo_a > hi_a:
+            return None
+        a = r.randint(lo_a, hi_a)
+        t = {"op": "mode_swaps", "c": par, "swaps": [[a, a + 1], [a + 1, a]]}
+        q = [{"op": "new_circuit", "n": nu, "out": par},
+             {"op": "new_circuit", "n": 3, "out": her},
+             {"op": "bs", "c": her, "m1": 0, "m2": 1, "r": round(r.uniform(0.2, 0.8), 3)},
+             {"op": "bs", "c": her, "m1": 1, "m2": 2, "r": round(r.uniform(0.2, 0.8), 3)},
+             {"op": "herald", "c": her, "n": r.choice([0, 0, 1]), "i": hm},
+             {"op": "add", "parent": par, "sub": her, "mode": at},
+             {"op": "new_circuit", "n": wdt, "out": blk},
+             {"op": "bs", "c": blk, "m1": 0, "m2": wdt - 1, "r": round(r.uniform(0.2, 0.8), 3)},
+             {"op": "ps", "c": blk, "m": wdt - 1, "phi": round(r.uniform(0.3, 3), 3)},
+             dict(t)]
+        if r.random() < 0.4:
+            q.append({"op": "ps", "c": par, "m": r.choice([m for m in range(nu) if m not in (a, a + 1)]),
+                      "phi": round(r.uniform(0.1, 6), 3)})
+        q.append({"op": "add", "parent": par, "sub": blk, "mode": a - wdt + 1,
+                  "group": True})
+        q.append(dict(t))
+        q.append({"op": "compress", "c": par})
+        self.queue = q
+        w.stats["intent:ancilla_sandwich"] += 1
+        return self.next_queued()
+
+    def parameter_sandwich(self):
+        """Swaps around a component whose *Parameter* currently makes it an
+        identity (loss 0, phase 0, reflectivity 1), a rewrite, and only then a
+        value for which it is not: the rewrite must hold for every value."""
+        r, w = self.rng, self.w
+        if len(w.pool["p"]) >= 10:
+            return None
+        nu = r.randint(3, 4)
+        cid, pid = w.new_id("c"), w.new_id("p")
+        a = r.randrange(nu - 1)
+        t = {"op": "mode_swaps", "c": cid, "swaps": [[a, a + 1], [a + 1, a]]}
+        kind = r.choice(["loss", "loss", "phi", "r"])
+        m = r.choice([a, a + 1])
+        if kind == "loss":
+            mid = {"op": "loss", "c": cid, "m": m, "l": {"p": pid}}
+            v0, v1 = 0, round(r.uniform(0.1, 0.8), 3)
+        elif kind == "phi":
+            mid = {"op": "ps", "c": cid, "m": m, "phi": {"p": pid}}
+            v0, v1 = 0, round(r.uniform(0.3, 3), 3)
+        else:
+            mid = {"op": "bs", "c": cid, "m1": a, "m2": a + 1, "r": {"p": pid}}
+            v0, v1 = 1, round(r.uniform(0.2, 0.8), 3)
+        q = [{"op": "new_param", "value": v0, "out": pid, "role": kind,
+              **({"bounds": [0, 1]} if kind != "phi" and r.random() < 0.5 else {})},
+             {"op": "new_circuit", "n": nu, "out": cid},
+             {"op": "bs", "c": cid, "m1": 0, "m2": nu - 1, "r": 0.4},
+             dict(t), mid, dict(t),
+             {"op": r.choice(["compress", "compress", "remove_nonadj", "unpack"]),
+              "c": cid},
+             {"op": "param_set", "p": pid, "value": v1}]
+        self.queue = q
+        w.stats["intent:parameter_sandwich"] += 1
+        return self.next_queued()
+
     def swap_chain(self):
         """Several overlapping mode swaps separated by blocking components,
         then a compression: the interesting inputs of compress_mode_swaps."""
@@ -328,12 +401,97 @@ class Rewriter(Client):
         cands = self.own_circuits(lambda cid, c: n_user(c) >= 3)
         if not cands:
             return None
-        cid = self.pick(cands)
+        anc = [c for c in cands if w.pool["c"][c]._internal_modes]
+        cid = self.pick(anc) if anc and r.random() < 0.75 else self.pick(cands)
         nu = n_user(w.pool["c"][cid])
+        small = self.any_circuits(
+            lambda s_, sc: s_ != cid and not w.meta["c"][s_].get("opaque")
+            and 2 <= sc.input_modes <= nu and not sc.heralds["input"]
+            and sc.n_modes <= 4)
+        pl = [p for p in w.pool["p"] if w.meta["p"][p].get("role") == "loss"]
         q = []
+        if r.random() < 0.5:
+            # sandwich: the same transposition before and after components that
+            # sit right next to (or just on) its modes - the boundary cases of
+            # the blocking analysis
+            a = r.randrange(nu - 1)
+            forced = None
+            internal = sorted(w.pool["c"][cid]._internal_modes)
+            if internal and small and r.random() < 0.6:
+                # aim at the boundary: a grouped block that spans one of the
+                # parent's ancillas and ends exactly on the swapped mode a
+                upos = r.choice([i - j for j, i in enumerate(internal)])
+                sid = self.pick(small)
+                wdt = w.pool["c"][sid].input_modes
+                lo_a, hi_a = max(upos, wdt - 1), min(upos + wdt - 2, nu - 2)
+                if lo_a <= hi_a:
+                    a = r.randint(lo_a, hi_a)
+                    forced = {"op": "add", "parent": cid, "sub": sid,
+                              "mode": a - wdt + 1, "group": True}
+                    w.stats["intent:sandwich_forced"] += 1
+            t = {"op": "mode_swaps", "c": cid, "swaps": [[a, a + 1], [a + 1, a]]}
+            q.append(dict(t))
+            if forced is not None:
+                q.append(forced)
+            tail = []
+            for _ in range(r.randint(1, 3)):
+                x = r.random()
+                if x < 0.45 and small:
+                    sid = self.pick(small)
+                    wdt = w.pool["c"][sid].input_modes
+                    # the block ends exactly on mode a / a+1 or starts there
+                    opts = [m for m in (a - wdt + 1, a - wdt + 1, a + 2 - wdt,
+                                        a, a + 1, a - wdt, a + 2)
+                            if 0 <= m <= nu - wdt]
+                    if opts:
+                        q.append({"op": "add", "parent": cid, "sub": sid,
+                                  "mode": r.choice(opts), "group": True})
+                elif x < 0.65 and pl:
+                    pid = self.pick(pl)
+                    pp = w.pool["p"][pid]
+                    zero_ok = (pp.min_bound is None or pp.min_bound <= 0) and \
+                        (pp.max_bound is None or pp.max_bound >= 0)
+                    if zero_ok and r.random() < 0.6:
+                        # the loss is exactly 0 while the circuit is rewritten,
+                        # and becomes non-zero afterwards
+                        q.append({"op": "param_set", "p": pid, "value": 0})
+                        hi = 0.9 if pp.max_bound is None else min(0.9, pp.max_bound)
+                        if hi > 0:
+                            tail.append({"op": "param_set", "p": pid,
+                                         "value": round(r.uniform(0.05, hi), 3)
+                                         if hi > 0.05 else hi})
+                    q.append({"op": "loss", "c": cid,
+                              "m": r.choice([a, a + 1, r.randrange(nu)]),
+                              "l": {"p": pid}})
+                elif x < 0.85:
+                    others = [m for m in range(nu) if m not in (a, a + 1)]
+                    q.append({"op": "ps", "c": cid,
+                              "m": r.choice(others) if others else a,
+                              "phi": round(r.uniform(0.1, 6), 3)})
+                else:
+                    b = r.randrange(nu - 1)
+                    q.append({"op": "mode_swaps", "c": cid,
+                              "swaps": [[b, b + 1], [b + 1, b]]})
+            q.append(dict(t))
+            q.append({"op": "compress", "c": cid})
+            q.extend(tail)
+            self.queue = q
+            w.stats["intent:swap_sandwich"] += 1
+            return self.next_queued()
         for _ in range(r.randint(3, 6)):
             x = r.random()
-            if x < 0.6:
+            if x < 0.12 and small:
+                # a grouped block in the chain: its recorded mode range is what
+                # stops swaps from being merged across it
+                sid = self.pick(small)
+                q.append({"op": "add", "parent": cid, "sub": sid,
+                          "mode": r.randint(0, nu - w.pool["c"][sid].input_modes),
+                          "group": True})
+            elif x < 0.2 and pl:
+                # a loss element whose value is a Parameter (possibly 0 now)
+                q.append({"op": "loss", "c": cid, "m": r.randrange(nu),
+                          "l": {"p": self.pick(pl)}})
+            elif x < 0.6:
                 a = r.randrange(nu - 1)
                 if r.random() < 0.7:
                     sw = [[a, a + 1], [a + 1, a]]
@@ -358,7 +516,13 @@ class Rewriter(Client):
     def next_queued(self):
         while self.queue:
             o = self.queue.pop(0)
-            if self.w.has("c", o["c"]):
+            if o["op"] == "param_set":
+                if self.w.has("p", o["p"]):
+                    return o
+                continue
+            if o["op"] in ("new_circuit", "new_param"):
+                return o
+            if self.w.has("c", o.get("c", o.get("parent"))):
                 return o
         return None
 
@@ -369,6 +533,10 @@ class Rewriter(Client):
             return o
         if r.random() < 0.12:
             return self.swap_chain()
+        if r.random() < 0.03:
+            return self.ancilla_sandwich()
+        if r.random() < 0.03 and self.cfg.get("max_params", 0) > 0:
+            return self.parameter_sandwich()
         k = r.choice(["unpack", "compress", "remove_nonadj", "copy", "copy",
                       "copyf"])
         if k in ("copy", "copyf"):
